@@ -156,7 +156,7 @@ func mask(al align.Alignment, start, length int, refseq bool, maskrefseq, maskre
 					reflen++
 				}
 			}
-			if start >= 0 && start < reflen && start+length > reflen {
+			if start >= 0 && start < reflen && length > reflen-start {
 				length = reflen - start
 			}
 		}
